@@ -70,21 +70,37 @@ func ZZH_C11_crash() {
 	// the state store performs 1 event (2 when old journals are pruned), the index store 1
 	ns := zz.Choice("stateStoreEvents", 4) // 0..3 events of the state store survive
 	stateDurable := ns >= 1
-	chainDurable := zz.Choice("indexBatch", 2) == 1
+	// the index store: the first 0..2 of its durable write events survive. On the current code it
+	// performs exactly one (the batch with block index, receipts, meta): "none" or "all". Code that
+	// splits the index write into several events can also leave a strict prefix behind - a state no
+	// known finding below describes
+	nc := zz.Choice("indexStoreEvents", 3)
 	k := zz.Choice("blockfileTables", 6)
 	stateStore.ArmCrash(ns)
-	nc := 0
-	if chainDurable {
-		nc = 1
-	}
 	chainStore.ArmCrash(nc)
 	zz.BlockFileDurable(bf, k)
 	lg.PersistBlockData(bd)
+	chainDurable := nc >= chainStore.Events()
+	indexTorn := nc > 0 && nc < chainStore.Events()
 
 	// ---- restart ----
 	stateStore.Disarm()
 	chainStore.Disarm()
 	bf2 := zz.ReopenBlockFile(bf)
+	if indexTorn {
+		// only a prefix of the index store's writes is durable: the node must still come up at h-1
+		lgT, errT := New(nil, chainStore, stateStore, bf2, nil, zz.Logger())
+		zz.Assert("C11.torn-index.reopen", errT == nil)
+		if errT == nil {
+			headT := lgT.GetChainMeta().Height
+			zz.Assert("C11.torn-index.height", headT == h || headT == h-1)
+			if headT > 0 {
+				_, e := lgT.GetBlock(headT, true)
+				zz.Assert("C11.torn-index.head-readable", e == nil)
+			}
+		}
+		return
+	}
 	zz.Tag("C11.D10", chainDurable && !stateDurable)          // index ahead of state: New refuses
 	zz.Tag("C11.F-bf-ahead", k == 5 && !chainDurable)          // block file ahead of index
 	zz.Tag("C11.F-index-ahead", chainDurable && k < 5)         // index ahead of block file
